@@ -203,7 +203,20 @@ def bin_path(harness, flavor, variant, lgpl=True):
 
 
 def ensure(targets, verbose=False):
-    """targets: iterable of (harness, flavor, variant, lgpl). Returns {target: path}."""
+    """targets: iterable of (harness, flavor, variant, lgpl). Returns {target: path}.
+    Serialised across processes by a lock file (two checks started together must not
+    compile the same object into the same path)."""
+    import fcntl
+    BUILD_ROOT.mkdir(parents=True, exist_ok=True)
+    with open(BUILD_ROOT / '.buildlock', 'w') as lf:
+        fcntl.flock(lf, fcntl.LOCK_EX)
+        try:
+            return _ensure(targets, verbose)
+        finally:
+            fcntl.flock(lf, fcntl.LOCK_UN)
+
+
+def _ensure(targets, verbose=False):
     bd = build_dir()
     _gen_point_names(bd)
     targets = sorted(set(targets))
